@@ -739,3 +739,45 @@ Section EngineProofs.
                 rewrite Cxs. symmetry. apply Cs. eapply Permutation_in; [apply Permutation_sym; exact Pps|right; exact Hy].
   Qed.
 End EngineProofs.
+
+(* ------------------------------------------------------------------ every well-formed queue represents its sorted contents *)
+Section QueueSorted.
+  Context {E : Type} (etime : E -> N).
+  Local Open Scope N_scope.
+  Local Notation QL := (qless etime).
+
+  (** insertion sort by (time, seq): the abstract content of a queue *)
+  Definition isort (h : list (@qev E)) : list (@qev E) := fold_right (sins QL) [] h.
+
+  Lemma isort_perm h : Permutation (isort h) h.
+  Proof.
+    induction h as [|x h IH]; [reflexivity|]. cbn [isort fold_right].
+    etransitivity; [apply sins_perm|]. apply perm_skip. exact IH.
+  Qed.
+
+  Lemma isort_sorted h : NoDup (map (@qseq E) h) -> StronglySorted (slt QL) (isort h).
+  Proof.
+    induction h as [|x h IH]; intro Hnd; [constructor|]. cbn [isort fold_right map] in *.
+    inversion Hnd as [|? ? Hnot Hnd']; subst.
+    apply (sins_sorted QL (qless_trans etime)); [apply IH; exact Hnd'|].
+    intros y Hy. apply (Permutation_in _ (isort_perm h)) in Hy.
+    assert (Hne : qseq x <> qseq y).
+    { intro Heq. apply Hnot. rewrite Heq. apply in_map. exact Hy. }
+    destruct (QL x y) eqn:Exy; [left; reflexivity|right].
+    apply qless_false in Exy. apply qless_true. lia.
+  Qed.
+
+  Lemma q_ok_repr q : q_ok etime q -> Repr QL (q_heap q) (isort (q_heap q)).
+  Proof.
+    intros (Hok & _ & Hnd). split; [exact Hok|]. split; [apply Permutation_sym; apply isort_perm|].
+    apply isort_sorted. exact Hnd.
+  Qed.
+
+  (** popping a well-formed queue until it is empty lists its events by (time, seq) *)
+  Lemma q_drain_sorted q : q_ok etime q -> hdrain QL (length (q_heap q)) (q_heap q) = isort (q_heap q).
+  Proof.
+    intro Hq. apply (repr_drain QL (qless_asym etime) (qhle_trans etime) (qless_trans etime)).
+    - apply q_ok_repr. exact Hq.
+    - rewrite (Permutation_length (isort_perm (q_heap q))). lia.
+  Qed.
+End QueueSorted.
